@@ -5,9 +5,10 @@
 //! never calls LALRPOP.
 
 use crate::model::cfg::{Arg, Core, Sem, Sym};
+use serde::{Deserialize, Serialize};
 use std::collections::{BTreeSet, HashMap};
 
-#[derive(Clone, Debug, PartialEq, Eq, Hash)]
+#[derive(Clone, Debug, PartialEq, Eq, Hash, Serialize, Deserialize)]
 pub enum Ty {
     Str,
     /// the extern token type
@@ -31,7 +32,7 @@ impl Ty {
     }
 }
 
-#[derive(Clone, Copy, Debug, PartialEq, Eq, Hash)]
+#[derive(Clone, Copy, Debug, PartialEq, Eq, Hash, Serialize, Deserialize)]
 pub enum LocTy {
     Usize,
     /// `Loc` newtype (Copy)
@@ -40,13 +41,13 @@ pub enum LocTy {
     CloneOnly,
 }
 
-#[derive(Clone, Debug, PartialEq, Eq, Hash)]
+#[derive(Clone, Debug, PartialEq, Eq, Hash, Serialize, Deserialize)]
 pub enum Lexer {
     Extern { loc: LocTy },
     Builtin,
 }
 
-#[derive(Clone, Debug, PartialEq, Eq, Hash)]
+#[derive(Clone, Debug, PartialEq, Eq, Hash, Serialize, Deserialize)]
 pub struct TermSpec {
     /// spelling in the grammar: `"a"`, `TA`, `r"[0-9]+"`
     pub spell: String,
@@ -60,7 +61,7 @@ pub struct TermSpec {
     pub cfg: Option<Pred>,
 }
 
-#[derive(Clone, Debug, PartialEq, Eq, Hash)]
+#[derive(Clone, Debug, PartialEq, Eq, Hash, Serialize, Deserialize)]
 pub enum Pred {
     Feature(String),
     Not(Box<Pred>),
@@ -103,20 +104,20 @@ impl Pred {
     }
 }
 
-#[derive(Clone, Copy, Debug, PartialEq, Eq, Hash)]
+#[derive(Clone, Copy, Debug, PartialEq, Eq, Hash, Serialize, Deserialize)]
 pub enum RepOp {
     Star,
     Plus,
     Question,
 }
 
-#[derive(Clone, Debug, PartialEq, Eq, Hash)]
+#[derive(Clone, Debug, PartialEq, Eq, Hash, Serialize, Deserialize)]
 pub enum TupPat {
     Name(String),
     Tup(Vec<TupPat>),
 }
 
-#[derive(Clone, Debug, PartialEq, Eq, Hash)]
+#[derive(Clone, Debug, PartialEq, Eq, Hash, Serialize, Deserialize)]
 pub enum Bind {
     None,
     /// `<X>`
@@ -127,7 +128,7 @@ pub enum Bind {
     Tuple(TupPat),
 }
 
-#[derive(Clone, Debug, PartialEq, Eq, Hash)]
+#[derive(Clone, Debug, PartialEq, Eq, Hash, Serialize, Deserialize)]
 pub enum SymKind {
     T(usize),
     N(usize),
@@ -141,7 +142,7 @@ pub enum SymKind {
     Err,
 }
 
-#[derive(Clone, Debug, PartialEq, Eq, Hash)]
+#[derive(Clone, Debug, PartialEq, Eq, Hash, Serialize, Deserialize)]
 pub struct SymSpec {
     pub bind: Bind,
     pub kind: SymKind,
@@ -153,7 +154,7 @@ impl SymSpec {
     }
 }
 
-#[derive(Clone, Copy, Debug, PartialEq, Eq, Hash)]
+#[derive(Clone, Copy, Debug, PartialEq, Eq, Hash, Serialize, Deserialize)]
 pub enum Style {
     /// `r!(..; <>)`
     Angle,
@@ -163,7 +164,7 @@ pub enum Style {
     Names,
 }
 
-#[derive(Clone, Debug, PartialEq, Eq, Hash)]
+#[derive(Clone, Debug, PartialEq, Eq, Hash, Serialize, Deserialize)]
 pub enum Act {
     /// no action code
     Default,
@@ -175,7 +176,7 @@ pub enum Act {
     UnitLit,
 }
 
-#[derive(Clone, Copy, Debug, PartialEq, Eq, Hash)]
+#[derive(Clone, Copy, Debug, PartialEq, Eq, Hash, Serialize, Deserialize)]
 pub enum Assoc {
     Left,
     Right,
@@ -183,7 +184,7 @@ pub enum Assoc {
     All,
 }
 
-#[derive(Clone, Copy, Debug, PartialEq, Eq, Hash)]
+#[derive(Clone, Copy, Debug, PartialEq, Eq, Hash, Serialize, Deserialize)]
 pub enum CondOp {
     Eq,
     Ne,
@@ -191,14 +192,14 @@ pub enum CondOp {
     NotMatch,
 }
 
-#[derive(Clone, Debug, PartialEq, Eq, Hash)]
+#[derive(Clone, Debug, PartialEq, Eq, Hash, Serialize, Deserialize)]
 pub struct Cond {
     pub param: usize,
     pub op: CondOp,
     pub rhs: String,
 }
 
-#[derive(Clone, Debug, PartialEq, Eq, Hash)]
+#[derive(Clone, Debug, PartialEq, Eq, Hash, Serialize, Deserialize)]
 pub struct AltSpec {
     pub syms: Vec<SymSpec>,
     pub act: Act,
@@ -214,7 +215,7 @@ impl AltSpec {
     }
 }
 
-#[derive(Clone, Debug, PartialEq, Eq, Hash)]
+#[derive(Clone, Debug, PartialEq, Eq, Hash, Serialize, Deserialize)]
 pub struct NtSpec {
     pub name: String,
     pub public: bool,
@@ -227,7 +228,7 @@ pub struct NtSpec {
     pub params: Vec<String>,
 }
 
-#[derive(Clone, Debug, PartialEq, Eq, Hash)]
+#[derive(Clone, Debug, PartialEq, Eq, Hash, Serialize, Deserialize)]
 pub struct GSpec {
     pub lexer: Lexer,
     pub terms: Vec<TermSpec>,
